@@ -16,7 +16,7 @@ ASSUMPTIONS = ["constraint functions are deterministic functions of x (the gener
 
 
 def cases(tier, seed):
-    n = C.n_cases(tier, 140, 2800)
+    n = C.n_cases(tier, 126, 2800)
     out = []
     for i in range(n):
         rng = gen.rng_for(seed, "C02", i)
@@ -39,10 +39,10 @@ def cases(tier, seed):
         opts = {}
         if rng.random() < 0.25:
             opts["noise_final_samples"] = int(rng.choice([0, 1, 3]))
-        big_design = rng.random() < 0.3
+        big_design = rng.random() < 0.25
         if big_design:
             # large initial designs: many design points near the constraint boundary
-            opts["fun_eval_start"] = int(rng.choice([32, 128, 256]))
+            opts["fun_eval_start"] = int(rng.choice([32, 128, 256], p=[0.4, 0.4, 0.2]))
         spec = gen.make_spec(rng, D=int(rng.choice([1, 2, 3], p=[0.15, 0.55, 0.3])), geom=geom, x0mode=x0mode,
                              land=str(rng.choice(["quad", "sphere", "l1", "rosen", "ramp", "bowl4"])),
                              where=str(rng.choice(["in", "onb", "out"], p=[0.5, 0.2, 0.3])), mode=mode, cons=kind, options=opts,
